@@ -82,6 +82,34 @@ fn air_assertion_validate_contract() {
     }
 }
 
+/// sequence assertions: a one-value sequence is a single assertion (names exactly one step); a longer
+/// one names values.len() steps first_step + k * stride and is valid exactly for n == values.len() * stride
+#[kani::proof]
+#[kani::unwind(6)]
+#[kani::stub(alloc::fmt::format, fmt_stub)]
+fn air_assertion_sequence_contract() {
+    let ls: u32 = kani::any();
+    kani::assume(ls >= 1 && ls <= 20);
+    let stride = 1usize << ls;
+    let first: usize = kani::any();
+    kani::assume(first < stride);
+    let n: usize = kani::any();
+    let one = Assertion::<BaseElement>::sequence(3, first, stride, alloc::vec![BaseElement::ONE]);
+    assert!(one.is_single() && !one.is_periodic() && !one.is_sequence());
+    assert!(one.stride() == 0 && one.first_step() == first && one.column() == 3);
+    assert!(one.validate_trace_length(n).is_ok() == (n.is_power_of_two() && first < n));
+    let four = Assertion::<BaseElement>::sequence(3, first, stride, alloc::vec![BaseElement::ONE; 4]);
+    assert!(four.is_sequence() && !four.is_single() && !four.is_periodic());
+    assert!(four.stride() == stride);
+    assert!(four.validate_trace_length(n).is_ok() == (n.is_power_of_two() && n == 4 * stride));
+    if n == 4 * stride {
+        assert!(four.get_num_steps(n) == 4);
+    }
+    // a one-value sequence and the single assertion on the same cell overlap; on another step they do not
+    let s = Assertion::<BaseElement>::single(3, first, BaseElement::ZERO);
+    assert!(one.overlaps_with(&s) && s.overlaps_with(&one));
+}
+
 #[kani::proof]
 #[kani::unwind(34)]
 fn air_assertions_canary_must_fail() {
